@@ -19,6 +19,7 @@ import (
 	"github.com/bool64/cache"
 
 	"verif/vclock"
+	"verif/vsched"
 )
 
 // C14 — HTTP transfer imports exactly what was exported and refuses mismatched types (DESIGN §C14).
@@ -196,6 +197,8 @@ func c14Transfer(cc c14Cell, env *Env) CellResult {
 	sets := c14EntrySets(cc.Src)
 	seen := map[string]bool{}
 
+	defer func() { vsched.MapOrderDesc = false }()
+
 	bad := func(kind, detail string, extra interface{}) {
 		sig := fmt.Sprintf("C14 transfer %s->%s %s perturb=%s", cc.Src, cc.Dst, kind, cc.Perturb)
 		if !seen[sig] {
@@ -209,6 +212,8 @@ func c14Transfer(cc c14Cell, env *Env) CellResult {
 
 	for assign := 0; assign < 27; assign++ {
 		for si, set := range sets {
+			// the importer visits its caches in map order: ascending for even cases, descending for odd ones
+			vsched.MapOrderDesc = (assign+si)%2 == 1
 			caseNo++
 			if caseNo%cc.NShards != cc.Shard {
 				continue
@@ -321,6 +326,7 @@ func c14Transfer(cc c14Cell, env *Env) CellResult {
 			}
 
 			res.Outcomes[fmt.Sprintf("%s/%d-entries", outcome, len(set))]++
+			vsched.MapOrderDesc = false
 
 			if res.Sample == nil && len(set) == 2 && assign == 26 {
 				res.Sample = map[string]interface{}{"pair": cc.Src + "->" + cc.Dst, "names": "a,b,c on both sides", "entries": fmt.Sprintf("%+v", set), "perturbation": cc.Perturb, "statuses": tr.statuses}
